@@ -557,6 +557,7 @@ func nestedRules(full bool) []string {
 
 func main() {
 	args := xvlib.ParseArgs()
+	scratch = args.Scratch
 	out := xvlib.NewOut(args.Out)
 	defer out.Close()
 	run := func(line string, nontrivial bool) string {
